@@ -27,6 +27,8 @@ pub struct Scenario {
     pub mode: FillMode,
     pub hint: bool,
     pub label: String,
+    /// k > 0: every k-th read of the source is short although input remains
+    pub short_reads: usize,
 }
 
 impl Scenario {
@@ -37,7 +39,7 @@ impl Scenario {
             "pcm_hash": format!("{:016x}", prng::hash_i32s(&self.audio.samples)),
             "block": self.block, "frames": (self.audio.frames() + self.block - 1) / self.block,
             "workers": self.workers, "env_FLACENC_WORKERS": self.env, "policy": format!("{:?}", self.policy),
-            "faults": format!("{:?}", self.faults), "fill": format!("{:?}", self.mode), "config": gen::describe_config(&self.cfg),
+            "faults": format!("{:?}", self.faults), "fill": format!("{:?}", self.mode), "config": gen::describe_config(&self.cfg), "short_read_every": self.short_reads,
         })
     }
 }
@@ -98,6 +100,7 @@ fn gen_c05_long(seed: u64, idx: u64) -> Scenario {
         mode: if rng.flip() { FillMode::Int } else { FillMode::Bytes },
         hint: rng.flip(),
         label: format!("long#{idx}"),
+        short_reads: 0,
     }
 }
 
@@ -142,6 +145,8 @@ pub fn gen_c05(seed: u64, sub: &str, idx: u64) -> Scenario {
         mode: if rng.flip() { FillMode::Int } else { FillMode::Bytes },
         hint: rng.flip(),
         label: format!("{sub}#{idx}"),
+        // one scheduled scenario in eight reads from a pipe-style source (short reads mid-stream)
+        short_reads: if sub == "sched" && idx % 8 == 5 { 2 + (idx as usize / 8) % 3 } else { 0 },
     }
 }
 
@@ -226,6 +231,7 @@ pub fn gen_c06(seed: u64, tier: Tier, sub: &str, idx: u64) -> Scenario {
         mode: FillMode::Int,
         hint: rng.flip(),
         label,
+        short_reads: 0,
     }
 }
 
@@ -242,7 +248,8 @@ fn run_encode(cfg: &config::Encoder, sc: &Scenario, multithread: bool) -> Result
     c.multithread = multithread;
     c.workers = sc.workers.and_then(NonZeroUsize::new);
     let v = enc::verified(&c).map_err(|e| EncErr::Api("ConfigRejected", e))?;
-    let src = TestSource::new(Arc::clone(&sc.audio), sc.mode, sc.hint).with_faults(sc.faults.clone());
+    let mut src = TestSource::new(Arc::clone(&sc.audio), sc.mode, sc.hint && sc.short_reads == 0).with_faults(sc.faults.clone());
+    src.short_reads = sc.short_reads;
     let stream = enc::encode_stream(&v, src, sc.block)?;
     enc::to_bytes(&stream).map_err(|e| EncErr::Api("Serialise", format!("{e:?}").chars().take(200).collect()))
 }
@@ -311,10 +318,11 @@ pub fn exec_scenario(prop: &str, sc: &Scenario) -> Value {
         }
         if prop == "C05" {
             if let Ok(a) = &single {
-                // frame-by-frame assembly
+                // frame-by-frame assembly (reads whole blocks: not comparable when the source of
+                // the scenario delivers short reads mid-stream)
                 let mut c = sc.cfg.clone();
                 c.multithread = false;
-                if let Ok(v) = enc::verified(&c) {
+                if let (Ok(v), true) = (enc::verified(&c), sc.short_reads == 0) {
                     match enc::encode_framewise(&v, &sc.audio, sc.mode, sc.block).and_then(|s| enc::to_bytes(&s).map_err(|e| EncErr::Api("Serialise", format!("{e:?}")))) {
                         Ok(fw) => {
                             if &fw != a {
